@@ -72,6 +72,8 @@ def default_evidence(rep, pid, tier, seed, wall):
             functions_encoded=sorted(rep.functions), configurations=sorted(rep.configs),
             harnesses=[dict(harness=it.get("harness"), status=it.get("status"), bounds=it.get("bounds"), ir_steps=it.get("ir_steps"),
                             zero_lemmas=it.get("zero_lemmas"), vacuity_witness=it.get("vacuity_witness"), wall_s=it.get("wall_s"),
+                            panic_edges_closed_by_intervals=it.get("panic_edges_closed_by_intervals"), panic_edges_to_solver=it.get("panic_edges_to_solver"),
+                            encoder_selftest=(it.get("encoder_selftest") or {}).get("ok"), why=it.get("why"),
                             goals=[dict(goal=g["goal"], verdict=g["verdict"], solver_s=g["solver_s"], cases=g.get("cases"), solver_calls=g.get("solver_calls")) for g in it.get("goals", [])])
                        for it in rep.items],
             solver=dict(queries=smt.STATS["queries"], solver_s=round(smt.STATS["solver_s"], 2), by_verdict=smt.STATS["by_verdict"]),
